@@ -3,11 +3,17 @@ from props import prop
 prop("C07", "exploration",
      "Layer 1 (direct, in-package, no network). rapid draws a history of 3..30 operations on one target HopServer under a "
      "case-driven clock (thunks.TimeNow): store a grant with the real AddAuthGrant (type shell / command(text) / local PF / remote PF / "
-     "acme / unknown; user alice|bob; key K1..K3; start and expiry around the clock incl. start in the future, expiry in the past, "
-     "equal and inverted bounds), connect as (user, key) (key-set probe + decision sequence of checkAuthorization with the real "
+     "acme / unknown; users drawn from a per-history cast out of alice, bob, ghost and NEAR-COLLISIONS of these names - Alice, ALICE, "
+     "'alice ' (trailing blank), 'alice\\x00', Bob, sam / long-s 'am' (U+017F) - every one a distinct account, the model keys everything "
+     "by the exact string, and a fifth of the connects present the key of a granted pair as ANOTHER user of the cast; key K1..K3; start "
+     "and expiry around the clock incl. start in the future, expiry in the past, equal and inverted bounds; MILLISECOND resolution: half "
+     "of the grants carry sub-second parts in start and expiry and two thirds of the histories run on a clock with sub-second steps "
+     "(quarter-second grid plus 1 and 999 ms, so that clock and bounds often coincide exactly or fall into the same second on either "
+     "side of each other; the rest stays on whole seconds), the window being start <= now < expiry on the exact instants), connect as (user, key) (key-set probe + decision sequence of checkAuthorization with the real "
      "AuthorizeKey / AuthorizeKeyAuthGrant; the hopSession is built exactly as checkAuthorization leaves it), exec request on an "
      "admitted session through the real checkCmd (shell flag, or command text equal / prefix / suffix / extra arguments / case variant / "
-     "trailing, leading, inner blank / empty / trailing NUL relative to a granted text), advance the clock by 0..10 s. Oracle after "
+     "trailing, leading, inner blank / empty / trailing NUL relative to a granted text; or a local / remote port-forward request through "
+     "the real checkPF), advance the clock by 0..10 s (+ 0..999 ms). Oracle after "
      "every step against a multiset model: connect admitted => grants for exactly (user, key) are stored, the session receives "
      "exactly those, a second admission right afterwards fails, the key leaves the transport key set once no stored grant names it; "
      "request allowed => an unused grant of the session matches (shell grant for a shell request; command grant with identical text "
@@ -19,15 +25,22 @@ prop("C07", "exploration",
      "functions; since no grant type authorizes issuing grants, any confirmation is a violation. Layer 2 (unit e2e, synctest bubble): "
      "the REAL hopSession (newSession -> checkAuthorization -> start -> tube dispatch) behind a real transport handshake on the "
      "simulated UDP network with real tube muxers; generated grant sets (user, delegate key, shell / command / local PF / remote PF, "
-     "windows around the clock) and request sequences by the harness-played delegate (exec with command text variants, exec with the "
-     "shell flag, local and remote port-forward requests, grant issuing for itself, port-forward DATA tubes (reliable or unreliable, "
+     "windows around the clock; users alice, bob, Alice, Bob as distinct accounts, grants often stored for the account whose name differs "
+     "from the connecting one by case only) and request sequences by the harness-played delegate (exec with command text variants, exec with the "
+     "shell flag, local and remote port-forward requests, port-forward control requests with ARBITRARY direction bytes (0, 1, 3, 6, 99, "
+     "255 besides the defined 4 = local and 5 = remote) and network-type bytes (defined 1..3, undefined 0, 4, 255; tcp / udp types with an "
+     "address that is not host:port) - confirmed only if the direction is one the protocol defines AND an effective unused grant of exactly "
+     "that type matches -, grant issuing for itself, port-forward DATA tubes (reliable or unreliable, "
      "written to; after a refused control request, after a granted one, or without any), clock steps between requests AND between opening "
      "the tubes of a request and sending its body (0 / 12 / 40 s, so that a grant expires or becomes effective in between: the model judges "
      "at the moment the body is sent); the forwarding target is a unix socket of the harness, one per case, whose accepted connections are "
      "counted synchronously after every request: the server may connect to it only once a local forwarding was authorized in this session "
      "(a local port-forward request that matched an effective, unused grant was confirmed); every answer the server gives is compared with "
      "the same multiset model (login admitted iff a grant for exactly this user and key is stored; an action confirmed iff an unused, "
-     "effective, unexpired grant of the session matches it; each grant at most once). Non-trivial = history containing a request on an admitted session that must be refused (different text, repeat, "
+     "effective, unexpired grant of the session matches it; each grant at most once). Units concurrent / concurrent-race: real goroutines race AuthorizeKeyAuthGrant for one stored grant set (one admission, not two), and - "
+     "mode 'store' - store grants for one (user, key) at the same time, optionally while others log in as that pair, followed by a drain "
+     "(every grant whose AddAuthGrant returned nil comes out of the store exactly once). "
+     "Non-trivial = history containing a request on an admitted session that must be refused (different text, repeat, "
      "expired, not yet effective, other kind, nothing left) or a connect that must be refused because the grant names another "
      "user / another key / was consumed; distinct by hash of the whole history.",
      ["'connect' and the exec gate are the sequences of checkAuthorization / startCodex as read in hopserver/session.go, re-stated in "
